@@ -9,9 +9,13 @@ correspondence stream (state of the aggregate, log of file-system mutations, fil
 One statement of the property is false of the code and is proved in negated form with witnesses
 that replay on the implementation (see `known_findings.jsonl`):
 
-* F-C11-2 `deltas_le_max_fails_min_ge_max`, `deltas_le_max_fails_young`: the number of retained
-  deltas is not bounded by `rrdp_delta_files_max_nr` in general (documented design: the minimum
-  rules win).
+* F-C11-2 `deltas_le_max_fails_min_ge_max`, `deltas_le_max_fails_young` and the histories
+  `deltas_le_max_fails_history_*`: the number of retained deltas is not bounded by
+  `rrdp_delta_files_max_nr` in general (documented design: the minimum rules win).  The bound
+  holds for every history exactly under the guard of `retention_bound_iff` (`deltas_le_max`).
+
+The clauses about files are also stated over whole histories of requests and interrupted writes
+(`world_invariant` and its corollaries at the end of the file).
 
 Repaired in the code, the model follows the fixed code and the old behaviour is kept only as
 counter-models of the pinned tree (`pinned_…`):
@@ -154,6 +158,73 @@ theorem max_nr_zero_keeps_nothing_old (ages : List (Bool × Bool)) (a : Bool) :
 made `max_nr - 1` underflow as soon as a delta was neither within `min_nr` nor young (a panic
 in builds with overflow checks). -/
 theorem pinned_max_nr_zero_underflows : truncLoopPinned 0 0 0 [(false, false)] = none := by decide
+
+/-- `deltas_le_max` — **for exactly which configurations the bound holds.**  With the clock
+answers of a regime (`young`: the retained deltas are younger than `min_seconds`; `old`: older
+than `max_seconds`), the retention rule keeps at most `max_nr - 1` old deltas – for delta lists
+of every length – if and only if `min_nr + 1 ≤ max_nr` and the deltas are not young.  Outside
+this guard the list `max_nr` deltas long is kept whole (F-C11-2). -/
+theorem retention_bound_iff (minNr maxNr : Nat) (young old : Bool) :
+    (∀ n, findTruncateAge minNr maxNr (List.replicate n (young, old)) + 1 ≤ maxNr) ↔
+      (minNr + 1 ≤ maxNr ∧ young = false) := by
+  constructor
+  · intro h
+    have h0 := h maxNr
+    by_cases hg : minNr + 1 ≤ maxNr ∧ young = false
+    · exact hg
+    · exfalso
+      have : findTruncateAge minNr maxNr (List.replicate maxNr (young, old)) = 0 + maxNr := by
+        apply truncLoop_first_arm
+        by_cases hy : young = true
+        · exact Or.inl hy
+        · right
+          have : young = false := by simpa using hy
+          have : ¬ (minNr + 1 ≤ maxNr) := fun hm => hg ⟨hm, this⟩
+          omega
+      omega
+  · rintro ⟨hmin, rfl⟩ n
+    have := truncLoop_le minNr maxNr hmin (List.replicate n (false, old)) 0 (Nat.zero_le _)
+      (fun j a hj _ => by
+        rw [List.getElem?_replicate] at hj
+        split at hj
+        · rw [← Option.some.inj hj]
+        · cases hj)
+    unfold findTruncateAge
+    omega
+
+/-- `deltas_le_max` over histories: under the guard (`min_nr + 1 ≤ max_nr`, deltas not young) the
+number of retained deltas never exceeds `rrdp_delta_files_max_nr`, after every history of
+requests (RRDP updates, session resets, publications, deletions …). -/
+theorem deltas_le_max (base : Uri) (cfg : Cfg) (session rnd : Nat) (ops : List Op)
+    (hmin : cfg.minNr + 1 ≤ cfg.maxNr) (hyoung : cfg.young = false) :
+    ((Server.init base cfg session rnd).run ops).rrdp.deltas.length ≤ cfg.maxNr :=
+  run_deltas_le ops (Server.init base cfg session rnd) hmin hyoung (Nat.zero_le _)
+
+/-- Outside the guard, histories exceed the maximum (F-C11-2): `min_nr = max_nr = 2`, three
+publications with an RRDP update each – three deltas are retained. -/
+theorem deltas_le_max_fails_history_min_ge_max :
+    let base : Uri := ⟨rsyncLower, ⟨"h", 0⟩, ⟨"m", 0⟩, [], true⟩
+    let u : Nat → Uri := fun i => ⟨rsyncLower, ⟨"h", 0⟩, ⟨"m", 0⟩, ["ca", toString i], false⟩
+    let s := (Server.init base ⟨2, 2, false, false, false⟩ 1 1).run
+      [.addpub ["ca"], .publish ["ca"] [.publish (u 1) ⟨1, 10⟩], .update 2,
+       .publish ["ca"] [.publish (u 2) ⟨2, 10⟩], .update 3,
+       .publish ["ca"] [.publish (u 3) ⟨3, 10⟩], .update 4]
+    s.rrdp.deltas.length = 3 ∧ s.cfg.maxNr = 2 := by
+  decide
+
+/-- … and with young deltas (`min_nr = 0`, `max_nr = 2`, everything younger than `min_seconds`). -/
+theorem deltas_le_max_fails_history_young :
+    let base : Uri := ⟨rsyncLower, ⟨"h", 0⟩, ⟨"m", 0⟩, [], true⟩
+    let u : Nat → Uri := fun i => ⟨rsyncLower, ⟨"h", 0⟩, ⟨"m", 0⟩, ["ca", toString i], false⟩
+    let s := (Server.init base ⟨0, 2, true, false, false⟩ 1 1).run
+      [.addpub ["ca"], .publish ["ca"] [.publish (u 1) ⟨1, 10⟩], .update 2,
+       .publish ["ca"] [.publish (u 2) ⟨2, 10⟩], .update 3,
+       .publish ["ca"] [.publish (u 3) ⟨3, 10⟩], .update 4]
+    s.rrdp.deltas.length = 3 ∧ s.cfg.maxNr = 2 := by
+  decide
+
+/-- Non-vacuity of the guard: the default configuration (5, 50) and the smallest one (0, 1). -/
+example : (5 + 1 ≤ 50 ∧ false = false) ∧ (0 + 1 ≤ 1 ∧ false = false) := by decide
 
 /-! ## The snapshot is the publication state -/
 
@@ -423,5 +494,125 @@ theorem pinned_notification_corrupt_after_stale_new_notification :
     (matchLog Mut.sig (rrdpPlan r fs) log).map (fun p => (fs.applyAllPinned p.1).consistent) =
       some false := by
   decide
+
+/-! ## Histories: requests and interrupted writes -/
+
+/-- `world_invariant` — the inductive invariant over arbitrary histories.  A history is any
+sequence of requests of the manager (publish / update / withdraw deltas, publisher addition and
+removal, RRDP updates under any retention configuration, deletions, session resets) and writes
+of the repository interrupted before any of their file-system mutations (or complete).  It is
+valid if deltas name each URI once with well-formed URIs (`OpOk`) and a session reset chooses a
+session id that is not on disk.  After every valid history the manager's invariant (`SInv`) and
+the file invariant (`FInv`: the preconditions `RrdpPre` of the RRDP writer, a consistent
+notification, no file beyond the current serial) hold.  The clauses below are corollaries. -/
+theorem world_invariant (base : Uri) (cfg : Cfg) (session rnd : Nat) (es : List Event)
+    (hv : World.Valid (World.init base cfg session rnd) es) :
+    WInv ((World.init base cfg session rnd).run es) :=
+  (WInv.init base cfg session rnd).run es hv
+
+/-- At every instant – after every valid history, wherever its writes were cut – the
+notification file names only files that exist with the stated content. -/
+theorem notification_consistent_at_every_instant (base : Uri) (cfg : Cfg) (session rnd : Nat)
+    (es : List Event) (hv : World.Valid (World.init base cfg session rnd) es) :
+    ((World.init base cfg session rnd).run es).rfs.consistent = true :=
+  (world_invariant base cfg session rnd es hv).files.cons
+
+/-- … the retained deltas are a contiguous run ending at the current serial, and the serial is
+positive … -/
+theorem deltas_contiguous_at_every_instant (base : Uri) (cfg : Cfg) (session rnd : Nat)
+    (es : List Event) (hv : World.Valid (World.init base cfg session rnd) es) :
+    Contig ((World.init base cfg session rnd).run es).srv.rrdp :=
+  (world_invariant base cfg session rnd es hv).files.pre.contig
+
+/-- … and an interrupted write never prevents later writes (RRDP part): in the world reached by
+any valid history a complete run of `update_rrdp_files` ends with a consistent notification
+that names the session and serial of the current state. -/
+theorem rrdp_write_after_any_history (base : Uri) (cfg : Cfg) (session rnd : Nat)
+    (es : List Event) (hv : World.Valid (World.init base cfg session rnd) es)
+    (log : List Sig) (ms : List Mut) (rest : Plan) :
+    let w := (World.init base cfg session rnd).run es
+    matchLog Mut.sig (rrdpPlan w.srv.rrdp w.rfs) log = some (ms, rest) → planDone rest = true →
+    (w.rfs.applyAll ms).consistent = true ∧
+    ∃ n, (w.rfs.applyAll ms).notification = some n ∧ n.session = w.srv.rrdp.session ∧
+      n.serial = w.srv.rrdp.serial := by
+  intro w hm hd
+  have hi := world_invariant base cfg session rnd es hv
+  obtain ⟨hc, _, hdone⟩ := rrdp_cut_facts hi.files.pre hi.files.cons hm
+  obtain ⟨n, hn, h1, h2⟩ := hdone hd
+  refine ⟨hc, n, ?_, h1, h2⟩
+  unfold RrdpFs.notification; rw [hn]
+
+/-- (rsync part) in the world reached by any history – valid or not, whatever its writes left in
+the rsync directory – a complete run of `RsyncdStore::write` succeeds and `current` is the
+snapshot: the rsync tree equals the snapshot after every successful write. -/
+theorem rsync_write_after_any_history (w0 : World) (es : List Event) (log : List Sig)
+    (ms : List RMut) (rest : List (Bool × List RMut)) :
+    let w := w0.run es
+    matchLog RMut.sig (rsyncPlan w.sfs w.srv.base w.srv.rrdp.serial (flatten w.srv.rrdp.snapshot)) log
+      = some (ms, rest) → planDone rest = true →
+    FilesFunctional (rsyncFiles w.srv.base (flatten w.srv.rrdp.snapshot)) →
+    ∃ fs' t, w.sfs.applyAll ms = (fs', true) ∧ fs'.current = some t ∧
+      ∀ rel, t.get? rel = (expectedTree w.srv.base (flatten w.srv.rrdp.snapshot)).get? rel := by
+  intro w hm hd hf
+  obtain ⟨fs', t, h1, h2, h3, _, _⟩ := rsync_equals_snapshot _ _ _ _ log ms rest hm hd hf
+  exact ⟨fs', t, h1, h2, h3⟩
+
+/-- "Whenever the chain is contiguous from its serial": with contiguous deltas, the deltas of all
+serials after `m` up to the current one are offered exactly when `serial - m` deltas are
+retained – the condition under which `client_catches_up` speaks. -/
+theorem chain_offered_iff (r : Rrdp) (hc : Contig r) (m : Nat) (hm : m ≤ r.serial) :
+    r.serial - m ≤ r.deltas.length ↔
+      ∀ j, m < j → j ≤ r.serial → ∃ d ∈ r.deltas, d.serial = j := by
+  have hget := contigFrom_get _ _ hc.2
+  constructor
+  · intro h j hj1 hj2
+    have hi : r.serial - j < r.deltas.length := by omega
+    refine ⟨r.deltas[r.serial - j], List.getElem_mem hi, ?_⟩
+    have := (hget _ hi).1
+    omega
+  · intro h
+    apply Classical.byContradiction
+    intro hn
+    have hlt : r.deltas.length < r.serial - m := by omega
+    obtain ⟨d, hd, hs⟩ := h (r.serial - r.deltas.length) (by omega) (by omega)
+    obtain ⟨i, hi, rfl⟩ := List.getElem_of_mem hd
+    have := (hget i hi).1
+    omega
+
+/-- Non-vacuity of the world: a publication, an RRDP update whose write is cut after three
+mutations (delta, snapshot and `new-notification.xml` written, not yet renamed), a retry, and
+a session reset with a fresh id; the history is valid, the first write left the old
+notification, the retry published serial 2. -/
+example :
+    let base : Uri := ⟨rsyncLower, ⟨"h", 0⟩, ⟨"m", 0⟩, [], true⟩
+    let u : Uri := ⟨rsyncLower, ⟨"h", 0⟩, ⟨"m", 0⟩, ["ca", "a.cer"], false⟩
+    let w0 := World.init base ⟨5, 50, false, false, false⟩ 1 1
+    let initLog : List Sig := [⟨"create", [.sess 1, .num 1, .rnd 1, .name "snapshot.xml"], []⟩,
+      ⟨"create", newNotifPath, []⟩, ⟨"rename", newNotifPath, notifPath⟩]
+    let rsyncLog : Nat → List Sig := fun n => [⟨"create_dir_all", [.name ("tmp-" ++ toString n)], []⟩,
+      ⟨"rename", [.name ("tmp-" ++ toString n)], [.name "current"]⟩]
+    let cutLog : List Sig := [⟨"create", [.sess 1, .num 2, .rnd 2, .name "delta.xml"], []⟩,
+      ⟨"create", [.sess 1, .num 2, .rnd 1, .name "snapshot.xml"], []⟩, ⟨"create", newNotifPath, []⟩]
+    let w1 := w0.run [.write initLog (rsyncLog 1), .req (.addpub ["ca"]),
+      .req (.publish ["ca"] [.publish u ⟨1, 10⟩]), .req (.update 2), .write cutLog []]
+    let w2 := w1.run [.write (cutLog ++ [⟨"rename", newNotifPath, notifPath⟩,
+      ⟨"remove_dir_all", [.sess 1, .num 1], []⟩]) []]
+    (w1.rfs.notification.map (·.serial), w1.rfs.consistent, (w1.rfs.get? newNotifPath).isSome,
+      w2.rfs.notification.map (·.serial), w2.rfs.consistent, (w2.rfs.get? newNotifPath).isSome,
+      (w0.run [.write initLog (rsyncLog 1)]).sfs.current.isSome) =
+      (some 1, true, true, some 2, true, false, true) := by
+  decide
+
+/-- … and that history (without its last, complete write) is valid. -/
+example :
+    let base : Uri := ⟨rsyncLower, ⟨"h", 0⟩, ⟨"m", 0⟩, [], true⟩
+    let u : Uri := ⟨rsyncLower, ⟨"h", 0⟩, ⟨"m", 0⟩, ["ca", "a.cer"], false⟩
+    World.Valid (World.init base ⟨5, 50, false, false, false⟩ 1 1)
+      [.write [] [], .req (.addpub ["ca"]), .req (.publish ["ca"] [.publish u ⟨1, 10⟩]),
+       .req (.update 2), .write [] []] := by
+  refine ⟨trivial, ⟨trivial, fun _ _ h => nomatch h⟩, ⟨⟨?_, ?_⟩, fun _ _ h => nomatch h⟩,
+    ⟨trivial, fun _ _ h => nomatch h⟩, trivial, trivial⟩
+  · intro e he; simp only [List.mem_singleton] at he; subst he; rfl
+  · exact List.pairwise_singleton _ _
 
 end KM.Props.C11
